@@ -104,6 +104,7 @@ type Sim struct {
 	active   bool
 
 	released map[int]int // tid -> number of seam calls released so far
+	paused   map[string]time.Time
 	tasks   int // live client tasks
 	fidx    int // faultable calls released so far
 	step    int
@@ -144,6 +145,7 @@ func New(seed uint64, plan Plan) *Sim {
 		arrive:  make(chan struct{}, 1),
 		tids:    map[uint64]int{},
 		released: map[int]int{},
+		paused:   map[string]time.Time{},
 		prio:    map[int]float64{},
 		pctCP:   map[int]bool{},
 		lastTid: -1,
@@ -264,6 +266,9 @@ func (s *Sim) Seam(inst *Instance, class, label string, faultable bool) error {
 		faultable = false
 	}
 	p := &park{seq: s.seq, tid: tid, class: class, label: label, inst: inst, fault: faultable && !s.faultOff, release: make(chan error)}
+	if until, ok := s.paused[class]; ok && time.Now().Before(until) {
+		p.frozenT = until
+	}
 	s.parked = append(s.parked, p)
 	if len(s.parked) > s.Stats.MaxParked {
 		s.Stats.MaxParked = len(s.parked)
@@ -558,6 +563,20 @@ func (s *Sim) FreezeParked(match func(class, label string) bool, d time.Duration
 		}
 	}
 	return n
+}
+
+// Pause makes every seam call of one class (one simulated client) ineligible for d of
+// virtual time: a stalled / partitioned client whose requests do not get through.
+func (s *Sim) Pause(class string, d time.Duration) {
+	until := time.Now().Add(d)
+	s.mu.Lock()
+	s.paused[class] = until
+	for _, p := range s.parked {
+		if p.class == class {
+			p.frozenT = until
+		}
+	}
+	s.mu.Unlock()
 }
 
 // Finish fills the stats that are known only at the end.
